@@ -1,5 +1,5 @@
 #!/bin/bash
 # vprobe.sh <Cxx...> : run checks against the scratch worktree /tmp/wt/probe (clean pinned tree unless a patch was applied there), evidence to a scratch dir
 cd /verif; E=$(mktemp -d)
-for c in "$@"; do VERIF_REPO=/tmp/wt/probe VERIF_TARGET=/var/tmp/verif_probe_target VERIF_EVIDENCE_DIR=$E ./vcheck $c 2>&1 | grep -a -v KNOWN-FINDING; done
+for c in "$@"; do VERIF_REPO=/tmp/wt/${PROBE:-probe} VERIF_TARGET=/var/tmp/verif_${PROBE:-probe}_target VERIF_EVIDENCE_DIR=$E ./vcheck $c 2>&1 | grep -a -v KNOWN-FINDING; done
 rm -rf $E
